@@ -19,4 +19,10 @@ CHECKS = {
   "text": "For generated structures (segments and balls of the reference proteins with threaded mutations, relabelled chains, library ligands and ions) the full observation record and the .pka text must be bit-identical after inserting ignorable residues (HETATM and ATOM tagged, at chain starts, after TER, anywhere), hydrogens under all PDB naming styles, non-atom records, and after rewriting serial/occupancy/B/element/charge columns or truncating lines; --protonate-all and the keep-protons round trip must reproduce every group within 1e-9.",
   "note": "Trusts the harness PDB writer/reader (vlib/pdbio.py) and the coordinate-based group keying (vlib/observe.py). Sampled, not exhaustive; edits are limited to the classes listed in the evidence rule.",
  },
+ "C06": {
+  "level": "exploration",
+  "technique": "metamorphic property-based testing (Hypothesis): generated structures x generated order-preserving relabellings; records keyed by file position must be unchanged",
+  "text": "Generated structures (incl. insertion codes, blank/digit/lower-case chain ids, hetero groups, TER-less chain breaks) are relabelled by injective chain renaming, per-chain shifts (to negative numbers, to a start at exactly 0, by multiples of 1000), strictly increasing renumbering and resolving/introducing insertion codes; every group record keyed by file position must agree within 1e-9 (counts exact) and labels must follow the relabelling.",
+  "note": "Open known finding F5 (insertion-code twins treated as one residue) is excluded by signature: only relabellings that create/resolve twins and only when every differing group is within 30 A of a twin residue. Fixed finding F10 (terminus bookkeeping by residue number only) is a regression case.",
+ },
 }
